@@ -12,6 +12,8 @@ CONSTANTS
   BigN = 12
   Acts = {"SetAlpha"}
   D = 4
+  NameFamily = "plain"
+  NameImpl = "asis"
 INVARIANT TypeOK
 INVARIANT C03_ExportSucceeds
 INVARIANT C03_ExportIsWinner
